@@ -93,6 +93,12 @@ type Lemma struct {
 	Line      int
 }
 
+type Macro struct {
+	Name   string
+	Params []string
+	Body   Expr
+}
+
 type GhostComp struct {
 	Name string
 	Type string
@@ -106,13 +112,14 @@ type Specs struct {
 	Lemmas    map[string]*Lemma
 	LemmaOrd  []string
 	Ghosts    map[string]*GhostComp
+	Macros    map[string]*Macro
 }
 
 func newSpecs() *Specs {
-	return &Specs{Funcs: map[string]*FuncContract{}, SpecFuncs: map[string]*SpecFunc{}, Lemmas: map[string]*Lemma{}, Ghosts: map[string]*GhostComp{}}
+	return &Specs{Funcs: map[string]*FuncContract{}, SpecFuncs: map[string]*SpecFunc{}, Lemmas: map[string]*Lemma{}, Ghosts: map[string]*GhostComp{}, Macros: map[string]*Macro{}}
 }
 
-var keywordRe = regexp.MustCompile(`^(func|extern|requires|ensures|modifies|loop|at|let|opt|spec|ghost|lemma|use|decreases)\b`)
+var keywordRe = regexp.MustCompile(`^(func|extern|requires|ensures|modifies|loop|at|let|opt|spec|ghost|lemma|use|decreases|define)\b`)
 var tagRe = regexp.MustCompile(`^\[([A-Za-z0-9, ]*)\]\s*`)
 var labelRe = regexp.MustCompile(`^([A-Za-z_][A-Za-z0-9_.]*):\s*`)
 
@@ -177,6 +184,27 @@ func (sp *Specs) loadFile(path string, commentOnly bool) error {
 			}
 			sp.SpecFuncs[sf.Name] = sf
 			sp.SpecOrder = append(sp.SpecOrder, sf.Name)
+			cur, curLemma = nil, nil
+		case "define":
+			// define name(a, b) = expr
+			i := strings.Index(rest, "(")
+			j := strings.Index(rest, ")")
+			k := strings.Index(rest, "=")
+			if i < 0 || j < i || k < j {
+				return fail(fmt.Errorf("define name(params) = expr"))
+			}
+			m := &Macro{Name: strings.TrimSpace(rest[:i])}
+			for _, p := range strings.Split(rest[i+1:j], ",") {
+				if p = strings.TrimSpace(p); p != "" {
+					m.Params = append(m.Params, p)
+				}
+			}
+			e, err := parseExpr(strings.TrimSpace(rest[k+1:]))
+			if err != nil {
+				return fail(err)
+			}
+			m.Body = e
+			sp.Macros[m.Name] = m
 			cur, curLemma = nil, nil
 		case "ghost":
 			fs := strings.Fields(rest)
